@@ -29,7 +29,7 @@ UNI = ["U%d" % i for i in range(6)] + ["u10", "u2", "Uncultured;k__7 x"]
 def cases(draw, tier):
     axis = draw(ops.AX)
     k = draw(st.sampled_from([1, 2, 2, 2, 3, 3, 4]))
-    values = draw(st.sampled_from(["int", "dyadic", "count"]))
+    values = draw(st.sampled_from(["int", "dyadic", "count", "frac"]))
     entry = draw(st.sampled_from(["method_list", "method_list", "function",
                                   "method_single"]))
     if entry == "method_single":
@@ -77,7 +77,7 @@ def cases(draw, tier):
     if overlap is True and k < 2:
         overlap = False
     return {"operands": operands, "axis": axis, "entry": entry,
-            "overlap": overlap}
+            "overlap": overlap, "values": values}
 
 
 def strategy(tier):
@@ -184,7 +184,9 @@ def check(case, rec):
                 (axis, a_id, have, want))
     tot = sum(x for row in got["rows"] for x in row)
     want_tot = sum(x for rf in refs for row in rf.rows for x in row)
-    if tot != want_tot:
+    if tot != want_tot and case.get("values") != "frac":
+        # (every cell was compared exactly above; the redundant total is only
+        # exact for values whose sums are)
         bad("grand-total", "%r != %r" % (tot, want_tot))
 
     lacks = any(set(rf.ids(inv)) != want_inv for rf in refs)
